@@ -112,7 +112,9 @@ def run(ctx, crate):
 
     def justify(b, kind, recv_s, site, recv):
         for i, e in enumerate(J):
-            if b.path.endswith("::" + e["fn"]) and kind.endswith(e["kind"]) and re.search(e["receiver"], recv_s):
+            # (unwrap and expect fail under exactly the same condition: a justification of one is a justification of the other)
+            kinds = (e["kind"], e["kind"].replace("::unwrap", "::expect"), e["kind"].replace("::expect", "::unwrap"))
+            if b.path.endswith("::" + e["fn"]) and kind.endswith(kinds) and re.search(e["receiver"], recv_s):
                 ok, info = side_condition(e.get("side"), b, site, recv)
                 if ok:
                     used_j.add(i)
